@@ -167,4 +167,17 @@ theorem C13_source_skeletons_2 :
     Gen.Skel.DB_HasHaltLock = Expected.Skel.DB_HasHaltLock :=
   ⟨rfl, rfl, rfl⟩
 
+/-- the mount side of the halt lock (fuse/lock_node.go: F_SETLKW / F_UNLCK / F_GETLK of the HALT
+    byte on the `-lock` file): one byte per request, the handle's own lock id, acquisition through
+    `AcquireRemoteHaltLock` (a primary needs no lock), release on unlock and on close (Flush);
+    driven without a kernel by the halt suite with the `mount` argument -/
+theorem C13_source_skeletons_mount :
+    Gen.Skel.LockHandle_LockWait = Expected.Skel.LockHandle_LockWait ∧
+    Gen.Skel.LockHandle_lockWaitHalt = Expected.Skel.LockHandle_lockWaitHalt ∧
+    Gen.Skel.LockHandle_Unlock = Expected.Skel.LockHandle_Unlock ∧
+    Gen.Skel.LockHandle_unlockHalt = Expected.Skel.LockHandle_unlockHalt ∧
+    Gen.Skel.LockHandle_Flush = Expected.Skel.LockHandle_Flush ∧
+    Gen.Skel.LockHandle_QueryLock = Expected.Skel.LockHandle_QueryLock :=
+  ⟨rfl, rfl, rfl, rfl, rfl, rfl⟩
+
 end LiteFSVerif.C13
